@@ -591,6 +591,10 @@ def main():
                     else:
                         ok = True
                         entry['status'] = 'discharged'
+                elif st == 'Failure' and not r.get('failed_checks'):
+                    # Kani reports a harness stopped by --harness-timeout (or killed) as failed without any failed check
+                    entry['status'] = 'timeout'
+                    undecided.append(f"{o['harness']}: no result within the per-harness time limit ({r.get('solver_s')}s)")
                 elif st == 'Failure':
                     fc = r.get('failed_checks', [])
                     real = [c for c in fc if 'unwinding assertion' not in c['description'] and 'unsupported' not in c['description'].lower()]
